@@ -197,6 +197,7 @@ where
 {
     set_limits(ld.n, args.get_u64("powi-limit", 100_000));
     let mut rng = args.rng_for(ls, 12 + ld.id());
+    sqrt_two_cycle_block::<S, D>(ev, ls, ld);
     for it in 0..args.n {
         let x = gen_trans_operand(&mut rng, ls, ld, 0);
         ev_sqrt::<S, D>(ev, ls, ld, x);
@@ -234,6 +235,26 @@ where
                 if rng.chance(1, 2) { v.wrapping_neg() & ls.mask() } else { v }
             }
         };
+        // directed pair class: the intermediate product y * ln x at the edge of D's range and at whole multiples of
+        // 2^I_D (where a wrapped product would land back inside exp's domain): x = e^k, y = m * 2^(I_D - 1) / k +- small
+        let (x, y) = if rng.chance(1, 8) && ls.f <= 120 {
+            let k = 1 + rng.below(5) as u32;
+            let m = 1 + rng.below(4) as u128;
+            let int_d = ld.n - ld.f - 1;
+            let xb = EK_120[(k - 1) as usize] >> (120 - ls.f);
+            let sm = rng.range(-4 << 8, 4 << 8);
+            let small_mag = ((sm.unsigned_abs() as u128) << ls.f) >> 8;
+            let small = if sm < 0 { small_mag.wrapping_neg() } else { small_mag };
+            let yb = (((m << (int_d - 1).min(100)) << ls.f.min(20)) / k as u128) << (ls.f - ls.f.min(20));
+            let ymag = yb.wrapping_add(small);
+            if xb <= ls.max_bits() && ymag <= ls.max_bits() && int_d + ls.f < 126 {
+                (xb, if rng.chance(1, 2) { ymag } else { ymag.wrapping_neg() & ls.mask() })
+            } else {
+                (x, y)
+            }
+        } else {
+            (x, y)
+        };
         ev_logs::<S, D>(ev, ls, ld, "pow", x, y);
         let x = powi_base(&mut rng, ls);
         let n = if it % 3 == 0 { rng.range(-40, 40) as i32 } else { POWI_EXPS[rng.below(POWI_EXPS.len() as u64) as usize] };
@@ -265,6 +286,46 @@ where
     }
 }
 
+/// Systematic sqrt operands on which a TRUNCATING Newton iteration does not settle on a fixed point but two-cycles
+/// {s, s+1}: x = (k/2)^2 +- k ulp (x*2^F + 1 a perfect square), and the operands below one whose reciprocal has that
+/// form, x = floor(2^(2j) / k^2) +- 1 ulp (4/9, 4/25, 1/9, 16/49 ...).  One or two such operands exist per layout;
+/// random / boundary classes hit them with p ~ 2^-60 (seeded changes C13-E, C13-F, C17-E).
+fn sqrt_two_cycle_block<S, D>(ev: &mut Ev, ls: Lay, ld: Lay)
+where
+    S: Fixed + PartialOrd<I9F23>,
+    D: Fixed + PartialOrd<I9F23> + From<S>,
+    S::Bits: BitsIo,
+    D::Bits: BitsIo,
+{
+    let f = ls.f;
+    let maxb = ls.max_bits();
+    for k in 2u128..=48 {
+        // (k/2)^2 +- k ulp
+        if let Some(sq) = (k * k).checked_shl(f).map(|v| v >> 2) {
+            if (k * k) >> 2 < (1u128 << (ls.n - f - ls.signed as u32).min(100)) {
+                for x in [sq.wrapping_add(k), sq.wrapping_sub(k)].iter() {
+                    if *x <= maxb {
+                        ev_sqrt::<S, D>(ev, ls, ld, *x);
+                    }
+                }
+            }
+        }
+        // reciprocals 2^(2j) / k^2 < 1, +- 1 ulp
+        for j in 0u32..=3 {
+            if k * k <= (1u128 << (2 * j)) || f + 2 * j >= 127 {
+                continue;
+            }
+            let q = (1u128 << (f + 2 * j)) / (k * k);
+            for d in [0u128, 1, 1u128.wrapping_neg()].iter() {
+                let x = q.wrapping_add(*d);
+                if x <= maxb {
+                    ev_sqrt::<S, D>(ev, ls, ld, x);
+                }
+            }
+        }
+    }
+}
+
 fn drive_unsigned<S, D>(ev: &mut Ev, args: &Args, ls: Lay, ld: Lay)
 where
     S: Fixed + PartialOrd<I9F23>,
@@ -274,6 +335,7 @@ where
 {
     set_limits(ld.n, args.get_u64("powi-limit", 100_000));
     let mut rng = args.rng_for(ls, 13 + ld.id());
+    sqrt_two_cycle_block::<S, D>(ev, ls, ld);
     for _ in 0..(3 * args.n) {
         let x = gen_trans_operand(&mut rng, ls, ld, 0);
         ev_sqrt::<S, D>(ev, ls, ld, x);
